@@ -2,7 +2,6 @@ package verifh
 
 import (
 	"fmt"
-	"os"
 	"strings"
 	"testing"
 	"time"
@@ -239,11 +238,7 @@ type c04Case struct {
 // hang reports a call that did not return within the (very generous) watchdog and
 // ends the process: the goroutine cannot be stopped, so shrinking is impossible.
 func hang(id, part string, c any, rec *ev.Recorder, msg string) {
-	p := ev.WriteReplay(id, part, c, fmt.Errorf("%s", msg))
-	rec.Flush()
-	fmt.Printf("HANG %s/%s: %s [replay %s]\n", id, part, msg, p)
-	killChildren()
-	os.Exit(1)
+	reportHang(id, part, c, rec, msg)
 }
 
 // bounded runs f with a watchdog; a miss is retried once with twice the budget, so
